@@ -745,7 +745,11 @@ fn gen_source(g: &mut Gen, plans: &mut Vec<SrcPlan>, me: usize) -> String {
                 if e {
                     match g.c.below(3) {
                         0 => {
-                            arg = format!("{arg}.txtpp");
+                            // x.tmp.txtpp, or x.txtpp.tmp (the other source-name shape)
+                            arg = match arg.rfind('.') {
+                                Some(i) if g.c.chance(1, 2) && !arg[i..].contains('/') => format!("{}.txtpp{}", &arg[..i], &arg[i..]),
+                                _ => format!("{arg}.txtpp"),
+                            };
                             target.clear();
                         }
                         1 => {
